@@ -6,9 +6,9 @@ HERE = os.path.dirname(os.path.dirname(os.path.abspath(__file__)))
 LIM = ("Alarm surface as measured (DESIGN.md 10.2e): this pack checks conformance to the shapes today's mechanism is written in; it keeps its "
        "verdict only while it still recognises the mechanism. Two rounds of twelve behaviour-preserving clean-ups, written by independent agents "
        "after the rules were last changed and run untouched, gave 5 of 12 and then 7 of 12 silent at first contact - the rest were reported with "
-       "behaviour unchanged. After generalising on them, 130 of all 140 stored probes are silent (in-sample); 10 stay reported "
+       "behaviour unchanged. After generalising on them, 131 of all 142 stored probes are silent (in-sample); 11 stay reported "
        "(selftest/limitations/: protocol redesigns between mechanism functions, data-layout splits of the identifier map, pipeline rewrites of "
-       "the naming code, a field type that is the product of two independent choices, a helper returning Option<String>). During development the "
+       "the naming code, a field type that is the product of two independent choices, a helper returning Option<String>, a presence test through the crate's own PartialEq impl). During development the "
        "packs lost recognition on equivalent rewrites nobody had flagged, several times. A report of a `roles`, `inventory`, `renderer-model` or "
        "`not recognised` rule means `re-confirm the mechanism`, and can be an alarm on correct code. ")
 TB = ("Trusted base: rustc nightly MIR (mir-opt-level=0) of /repo's current working tree as produced by the real cargo build "
